@@ -71,6 +71,45 @@ Theorem c06_code_kinds_are_session_task_thread : map k_name gen_kinds = [0%N; 1%
 Proof. exact (wf_kinds_names gen_kinds gen_stream_order_ok). Qed.
 Print Assumptions c06_code_kinds_are_session_task_thread.
 
+(* several concurrent producers on ONE stream (a pipes task: stdout pump, stderr pump and the main task emit through
+   clones of one TaskEmitter).  mfinal c span work m sched = the multi-producer system (producer j emits work[j] frames;
+   each emit = Choose the next seq number; Rec; Pub; ANY schedule over {MP j, MS i, MO}); span = what the emitter's seq
+   mutex covers.  With the mutex spanning the whole emit (SpanEmit) every subscriber is a subscriber of a ONE-producer
+   stream of the same total length (mview = that view), hence exactly-once: *)
+Theorem c06_multi_producer_exactly_once : forall (c : cfg),
+  c_p c = RecThenPub -> c_s c = SubThenSnap -> c_f c = FilterGtLast -> c_cap c = None ->
+  forall (work : list nat) (m : nat) (msched : list mactor) (i : nat) (x : sub),
+  nth_error (m_subs (mfinal c SpanEmit work m msched)) i = Some x -> attached x = true ->
+  ExactlyOnce c (fold_right Nat.add 0 work) (mview (mfinal c SpanEmit work m msched)) x.
+Proof. exact multi_producer_exactly_once. Qed.
+Print Assumptions c06_multi_producer_exactly_once.
+
+(* ... stated for the span the extractor reads from TaskEmitter::emit today (k_span of the generated kinds) *)
+Theorem c06_multi_producer_exactly_once_code : forall (k : kind_orders), In k gen_kinds ->
+  forall (work : list nat) (m : nat) (msched : list mactor) (i : nat) (x : sub),
+  nth_error (m_subs (mfinal (kind_cfg k None) (k_span k) work m msched)) i = Some x -> attached x = true ->
+  ExactlyOnce (kind_cfg k None) (fold_right Nat.add 0 work) (mview (mfinal (kind_cfg k None) (k_span k) work m msched)) x.
+Proof. exact (multi_producer_kinds gen_kinds gen_stream_order_ok). Qed.
+Print Assumptions c06_multi_producer_exactly_once_code.
+
+(* with the seq mutex narrowed to the counter (SpanCounter) two producers reorder the history and a late subscriber
+   loses the overtaken frame: A takes 0, B takes 1, B records + publishes 1, the subscriber attaches (last = 1),
+   A records + publishes 0 which `seq > last` drops.  History [1; 0], body [1], everybody finished. *)
+Theorem c06_narrowed_seq_lock_refuted :
+  m_hist (mfinal okc SpanCounter [1; 1] 1 narrowed_sched) = [1; 0]
+  /\ map attached (m_subs (mfinal okc SpanCounter [1; 1] 1 narrowed_sched)) = [true]
+  /\ map (delivered okc) (m_subs (mfinal okc SpanCounter [1; 1] 1 narrowed_sched)) = [[1]]
+  /\ actives (m_prods (mfinal okc SpanCounter [1; 1] 1 narrowed_sched)) = []
+  /\ work_left (m_prods (mfinal okc SpanCounter [1; 1] 1 narrowed_sched)) = 0.
+Proof. exact span_counter_refuted. Qed.
+Print Assumptions c06_narrowed_seq_lock_refuted.
+
+Example c06_same_schedule_with_whole_emit_lock :
+  map (delivered okc) (m_subs (mfinal okc SpanEmit [1; 1] 1 (narrowed_sched ++ [MP 1; MP 1; MP 1; MS 0]))) = [[0; 1]]
+  /\ m_hist (mfinal okc SpanEmit [1; 1] 1 (narrowed_sched ++ [MP 1; MP 1; MP 1; MS 0])) = [0; 1].
+Proof. exact span_emit_same_schedule. Qed.
+Print Assumptions c06_same_schedule_with_whole_emit_lock.
+
 (* S8 — publish-then-record (emit_event and TaskEmitter::emit before the repair) loses a frame:
    send(0) < subscribe < snapshot < push(0) *)
 Theorem c06_pub_then_rec_refuted : exists n sched, Loses unfixed_cfg n sched.
